@@ -289,7 +289,7 @@ func successReturn(ret *ssa.Return) (success bool, ok bool) {
 }
 
 // isLoadOf reports whether v is `*addr`.
-func isLoadOf(v ssa.Value, addr ssa.Value) bool {
+func storageIsLoadOf(v ssa.Value, addr ssa.Value) bool {
 	u, ok := v.(*ssa.UnOp)
 	return ok && u.Op == token.MUL && u.X == addr
 }
